@@ -46,6 +46,9 @@ type Wire struct {
 
 	Mut       *Mutation
 	Muts      []*Mutation // further simultaneous mutations (other fields)
+	// ListLen is the number of entries of the session's file list once it is
+	// known (mutation class "listlen": the first index past the list)
+	ListLen int
 	truncated bool
 
 	// FieldCount counts how often each field name was written (for enumeration).
@@ -164,6 +167,9 @@ func (w *Wire) mutate(field string, v int64) (int64, bool) {
 	trunc := false
 	for _, m := range append([]*Mutation{w.Mut}, w.Muts...) {
 		var tr bool
+		if m != nil && m.Class == "listlen" {
+			m.Value = int64(w.ListLen)
+		}
 		v, tr = m.apply(field, v)
 		trunc = trunc || tr
 	}
@@ -200,7 +206,7 @@ func (m *Mutation) apply(field string, v int64) (int64, bool) {
 		return 0x7fffffff, false
 	case "min":
 		return -0x80000000, false
-	case "setv":
+	case "setv", "listlen":
 		return m.Value, false
 	case "trunc":
 		return v, true
